@@ -106,11 +106,17 @@ ZPut(zs, key, z) == [k \in (DOMAIN zs) \cup {key} |-> IF k = key THEN z ELSE zs[
 (* (least significant first) goes to address A+j (little endian) or A+n-1-j  *)
 (* (big endian).                                                             *)
 IsRaw(val) == \A k \in 1..Len(val) : val[k].t \in {"v", "k"}
+(* a value that is (a contiguous slice of) one `mem` expression: MemoryZone   *)
+(* cuts it with mem.bytes (expressions.py:1379), which takes the bytes in the *)
+(* memory order of the SOURCE whatever the endianness of the store           *)
+IsMemSlice(val) == /\ Len(val) > 0 /\ \A k \in 1..Len(val) : val[k].t = "l"
+                   /\ \A k \in 2..Len(val) : val[k].ld = val[1].ld /\ val[k].k = val[1].k + k - 1
 WriteZ(z, A, val, en, id) ==
-  LET n == Len(val) new == {A + j : j \in 0..(n - 1)} raw == IsRaw(val) IN
-  [a \in (DOMAIN z) \cup new |->
-     IF a \in new THEN (LET o == a - A IN [d |-> val[(IF en = 1 THEN o ELSE n - 1 - o) + 1], o |-> id, e |-> en, raw |-> raw])
-     ELSE z[a]]
+  LET n == Len(val) new == {A + j : j \in 0..(n - 1)} raw == IsRaw(val)
+      se == IF IsMemSlice(val) THEN val[1].ld.en ELSE en          \* the layout the object really gets
+  IN [a \in (DOMAIN z) \cup new |->
+        IF a \in new THEN (LET o == a - A IN [d |-> val[(IF se = 1 THEN o ELSE n - 1 - o) + 1], o |-> id, e |-> se, raw |-> raw])
+        ELSE z[a]]
 
 (* index of the (last) pointer item with key loc, 0 if none                 *)
 PIdx(map, loc) ==
@@ -257,16 +263,19 @@ BuildC(s0, Q, cf) ==
 (* programs. op = [o="st", p, off, n, vk, src] | [o="ld", p, off, n, dst]     *)
 (*   vk = "d" (a data register), "c" (a constant), "r" (a loaded register)   *)
 RegVal(ms, r) == ms.map[RIdx(ms.map, r)].val
+(* m(mem(loc, 8n, endian=en)): mapper.__call__ -> mem.eval(m) -> m.use()[mem(..)]                  *)
+LoadValU(ms, ums, loc, n, Q, cf) ==                          \* ums = Use(ms, Q, cf)
+  IF "EmptyMapShortcut" \in Q /\ ms.map = <<>>
+  THEN MemVal(loc.b, loc.d, n, cf.en)                        \* the mem expression itself
+  ELSE MGet(ums, loc, n, cf.en, Q, cf)
+LoadVal(ms, loc, n, Q, cf) == LoadValU(ms, Use(ms, Q, cf), loc, n, Q, cf)
 SymStep(ms, op, Q, cf) ==
   LET loc == MLoc(SymB(op.p), op.off) IN
   IF op.o = "st"
   THEN SetPtr(ms, loc, IF op.vk = "r" THEN RegVal(ms, op.src)
                        ELSE [k \in 1..op.n |-> IF op.vk = "c" THEN DCst(op.src, k - 1) ELSE DData(op.src, k - 1)],
               cf.en, Q, cf)
-  ELSE SetReg(ms, op.dst,
-              IF "EmptyMapShortcut" \in Q /\ ms.map = <<>>
-              THEN MemVal(loc.b, loc.d, op.n, cf.en)                                                \* the mem expression itself
-              ELSE MGet(Use(ms, Q, cf), loc, op.n, cf.en, Q, cf))                                       \* m(mem(..)) = mem.eval(m)
+  ELSE SetReg(ms, op.dst, LoadVal(ms, loc, op.n, Q, cf))
 RECURSIVE SymRun(_, _, _, _)
 SymRun(ms, prog, Q, cf) == IF prog = <<>> THEN ms ELSE SymRun(SymStep(ms, Head(prog), Q, cf), Tail(prog), Q, cf)
 
